@@ -1,6 +1,7 @@
 import Driver.Proto
 import Gotree.Model.C17
 import Gotree.Model.C17Cli
+import Gotree.Model.C17Heap
 import Gotree.Spec.C17
 
 namespace Gotree.Driver.C17
@@ -33,6 +34,16 @@ def parseMode (s : String) : Option Mode :=
   | _ => none
 
 def sortSets (l : List SplitSet) : List String := sortStrings (l.map showStrLists)
+
+/-- every branch with its data, as the unrooted view shows it (tie: the changed branch keeps its
+    length and support in the model) -/
+def dataKeyV (v : View) : String :=
+  String.join (v.us.map fun u => showStrList u.side ++ ":" ++ showRat u.len ++ ":" ++ showRat u.sup ++ ";") ++ "|" ++
+  String.join (v.tl.map fun p => showStrList p.1 ++ ":" ++ showRat p.2 ++ ";")
+
+def dataKey (t : T) : String :=
+  String.join (t.usplits.map fun u => showStrList u.side ++ ":" ++ showRat u.len ++ ":" ++ showRat u.sup ++ ";") ++ "|" ++
+  String.join (t.tipLens.map fun p => showStrList p.1 ++ ":" ++ showRat p.2 ++ ";")
 
 def firstSome {α} (l : List (Option α)) : Option α := l.findSome? id
 
@@ -80,7 +91,10 @@ def handleGeneral (m : Mode) (before text : String) (t : T) (recs : List Rec) (c
 
 def handleEnum (m : Mode) (before text : String) (t : T) (recs : List Rec) (calls : Nat)
     (wfF dumpF textF : String) : Verdict :=
-  let inner := innerBranches t
+  -- the oracle's view of the input tree, computed once (`neighbourOK2V_eq`, `f22RegionV_eq`:
+  -- the predicates on views are the Spec predicates on the trees)
+  let tv := viewOf t
+  let inner := tv.set.length
   let rs := rearrangements t
   let scope := inScope t
   let tags := tagIf t.rooted "rooted" ++ tagIf (!t.rooted) "unrooted" ++ tagIf (inner ≥ 2) "nontrivial" ++
@@ -95,23 +109,25 @@ def handleEnum (m : Mode) (before text : String) (t : T) (recs : List Rec) (call
   -- ORACLE, on the implementation's own output only
   let ns : List (Option T) := recs.map fun r => T.undump r.dump1
   let nsT : List T := ns.filterMap id
-  let perRec : List (Option String) := (recs.zip (List.range recs.length)).map fun (r, i) =>
+  let nvo : List (Option View) := ns.map (·.map viewOf)
+  let nviews : List View := nvo.filterMap id
+  let perRec : List (Option String) := ((recs.zip nvo).zip (List.range recs.length)).map fun ((r, ov), i) =>
     let at_ := " at rearrangement " ++ toString i
     if r.applyOut != "ok" then some ("Apply: " ++ r.applyOut ++ at_)
     else if r.wf1 != "ok" then some ("tree malformed after Apply: " ++ r.wf1 ++ at_)
-    else match T.undump r.dump1 with
+    else match ov with
       | none => some ("unreadable dump after Apply" ++ at_)
-      | some t1 =>
-        if !(neighbourOK t t1) then
-          some ((if !(t1.binary && t1.uniqueTips && sameTips t t1 && t1.rooted == t.rooted) then "neighbour not a binary tree on the same tips"
-                 else if !(oneSplitApart t.usplitSet t1.usplitSet) then "neighbour does not differ by exactly one split"
-                 else "neighbour differs in branch data besides the one split") ++ at_)
+      | some v1 =>
+        if !(neighbourOK2V tv v1) then
+          some ((if !(v1.binary && v1.unique && tv.tips == v1.tips && v1.rooted == tv.rooted) then "neighbour not a binary tree on the same tips"
+                 else if !(oneSplitApart tv.set v1.set) then "neighbour does not differ by exactly one split"
+                 else "a branch other than the changed one lost its split, length or support (or a tip branch its length)") ++ at_)
         else if r.undoOut != "ok" then some ("Undo: " ++ r.undoOut ++ at_)
         else if r.wf2 != "ok" then some ("tree malformed after Undo: " ++ r.wf2 ++ at_)
         else if r.dump2 != before then some ("Undo does not restore the tree (dump differs)" ++ at_)
         else if r.text2 != text then some ("Undo does not restore the text" ++ at_)
         else none
-  let distinct := pairwiseDistinct (nsT.map (·.usplitSet))
+  let distinct := pairwiseDistinct (nviews.map (·.set))
   -- did the enumeration run to its end (the callback never answered false)?
   let exhaustive : Bool := match m with | .stop k => k = 0 || calls < k | _ => true
   let callsOK : Bool := match m with
@@ -133,14 +149,30 @@ def handleEnum (m : Mode) (before text : String) (t : T) (recs : List Rec) (call
   let mnsT := mallT.take calls
   -- the order of the enumeration is not part of obs_C17: the neighbours are compared as a
   -- multiset, and when the callback stopped the enumeration, as a sub-multiset of the model's
-  let msets := sortSets (mallT.map (·.usplitSet))
-  let isets := sortSets (nsT.map (·.usplitSet))
+  let mviews := mallT.map viewOf
+  let msets := sortSets (mviews.map (·.set))
+  let isets := sortSets (nviews.map (·.set))
+  let mdata := sortStrings (mviews.map dataKeyV)
+  let idata := sortStrings (nviews.map dataKeyV)
   let exact := mnsT.length == nsT.length && (List.zipWith (fun a b => a == b) mnsT nsT).all id
-  let undoOK := exact && (List.zipWith (fun (r : NNI) (n : T) => match undo n r with | some u => u == t | none => false) (rs.take calls) nsT).all id
+  -- the model's Undo on the implementation's neighbour: for every neighbour that is, as a dump, one
+  -- of the model's (whatever the order of the enumeration); `matched` counts them
+  let pairs : List (NNI × T) := (rs.zip mall).filterMap fun (r, o) => o.map fun x => (r, x)
+  -- (in enumeration order when the sequences are equal, otherwise by search)
+  let mpairs : List (T × Option NNI) :=
+    if exact then nsT.zip ((rs.take calls).map some)
+    else nsT.map fun n => (n, (pairs.find? fun p => p.2 == n).map (·.1))
+  let matched := (mpairs.filter fun p => p.2.isSome).length
+  let undoOK := mpairs.all fun (n, o) => match o with
+    | some r => (match undo n r with | some u => u == t | none => false)
+    | none => true
   -- `double` mode: the model goes through the `applied` flag as the harness does
   -- (Apply, Apply, look, Undo, Undo, look)
   let objOK : Bool := match m with
-    | .double => ((rs.take calls).zip nsT).all fun (r, n) =>
+    | .double => mpairs.all fun (n, o) =>
+        match o with
+        | none => true
+        | some r =>
         match (Obj.mk r false).apply t with
         | none => false
         | some (t1, o1) =>
@@ -155,12 +187,23 @@ def handleEnum (m : Mode) (before text : String) (t : T) (recs : List Rec) (call
                | none => false
                | some (t3, o3) => t3 == t && !o3.applied)
     | _ => true
+  -- the loop itself (`enumerate`: apply, look, undo, next — what `cmd/nni.go` and the harness do),
+  -- run in plain mode: it must end on the tree it started from and see the implementation's neighbours
+  let enumOK : Bool := match m with
+    | .plain =>
+      (match enumerate t with
+       | some (seen, fin) => fin == t && (!exact || (seen.length == nsT.length && (List.zipWith (fun a b => a == b) seen nsT).all id))
+       | none => false)
+    | _ => true
   let tie : Option String :=
     if mcalls != calls then some ("model proposes " ++ toString mcalls ++ " rearrangements")
     else if mall.any (·.isNone) then some "model Apply fails"
     else if (if exhaustive then msets != isets else !(isets.all msets.contains)) then some "model neighbours differ (split sets)"
-    else if exact && !undoOK then some "model Undo of the implementation's neighbour differs from the original"
-    else if exact && !objOK then some "model Apply/Apply/Undo/Undo through the applied flag differs"
+    else if (if exhaustive then mdata != idata else !(idata.all mdata.contains)) then
+      some "model neighbours differ in branch data (length or support of the changed branch)"
+    else if !undoOK then some "model Undo of the implementation's neighbour differs from the original"
+    else if !objOK then some "model Apply/Apply/Undo/Undo through the applied flag differs"
+    else if !enumOK then some "model enumerate (apply, look, undo, next) does not end on the original tree with these neighbours"
     else none
   match other with
   | some msg => ⟨.oracle, tags, msg⟩
@@ -168,17 +211,18 @@ def handleEnum (m : Mode) (before text : String) (t : T) (recs : List Rec) (call
     if !callsOK then
       let msg := "proposed " ++ toString calls ++ " rearrangements" ++ (if exhaustive then "" else " (stopped by the callback)") ++
         ", the tree has " ++ toString inner ++ " inner branches"
-      if full && f22Region t nsT then
+      if full && f22RegionV t tv nviews then
         -- the known finding; the correspondence is still checked on these trees and a broken
         -- tie is not hidden behind the known finding
         match tie with
         | some d => ⟨.tie, tags, d ++ " (tree in the region of F22)"⟩
-        | none => ⟨.oracle, tags ++ tagIf exact "exact" ++ tagIf undoOK "model-undo-exact", "class=F22-nni-rooted-root-branches " ++ msg⟩
+        | none => ⟨.oracle, tags ++ tagIf exact "exact" ++ tagIf (matched == nsT.length) "model-undo-exact", "class=F22-nni-rooted-root-branches " ++ msg⟩
       else ⟨.oracle, tags, msg⟩
     else
     match tie with
     | some d => ⟨.tie, tags, d⟩
-    | none => ⟨.pass, tags ++ tagIf exact "exact" ++ tagIf undoOK "model-undo-exact", ""⟩
+    | none => ⟨.pass, tags ++ tagIf exact "exact" ++ tagIf (matched == nsT.length) "model-undo-exact" ++
+        tagIf (matched != nsT.length) "undo-partly-unmatched", ""⟩
 
 /- what the Newick text shows of a tree: shape, child order, names, lengths, supports
    (not the parent positions, not the branch ids) -/
@@ -217,7 +261,7 @@ def handleCLI (t : T) (out : String) (recs : List (String × String)) : Verdict 
     if r.1 != "ok" then some ("output line not a tree: " ++ r.1 ++ at_)
     else match T.undump r.2 with
       | none => some ("unreadable dump" ++ at_)
-      | some t1 => if neighbourOK t t1 then none else some ("output tree is not an NNI neighbour of the input" ++ at_)
+      | some t1 => if neighbourOK2 t t1 then none else some ("output tree is not an NNI neighbour of the input" ++ at_)
   let nsT : List T := recs.filterMap fun r => T.undump r.2
   let distinct := pairwiseDistinct (nsT.map (·.usplitSet))
   match firstSome (perRec ++ [if distinct then none else some "two output trees are the same tree"]) with
@@ -245,6 +289,145 @@ def handleCLI (t : T) (out : String) (recs : List (String × String)) : Verdict 
     | some d => ⟨.tie, tags, d⟩
     | none => ⟨.pass, tags ++ tagIf exact "exact-text", ""⟩
 
+/- ## the pointer-level tier: the records of the six nodes and five branches, read from the
+   real heap before `Apply`, after `Apply`, after `Undo` (tie of `Model/C17Heap.lean`) -/
+
+def parsePId (s : String) : Option PId :=
+  match s with
+  | "n1" => some (.n .n1) | "n2" => some (.n .n2) | "a" => some (.n .a) | "b" => some (.n .b)
+  | "c" => some (.n .c) | "d" => some (.n .d)
+  | _ => if s.front == 'x' then (dropFirst s).toNat?.map PId.ext else none
+
+def parseEId (s : String) : Option EId :=
+  match s with
+  | "e0" => some .e0 | "ea" => some (.eo .a) | "eb" => some (.eo .b) | "ec" => some (.eo .c) | "ed" => some (.eo .d)
+  | _ => if s.front == 'y' then (dropFirst s).toNat?.map EId.ext else none
+
+def parseIds {α} (f : String → Option α) (s : String) : Option (List α) :=
+  if s == "" then some [] else (s.splitOn ",").mapM f
+
+def parsePNode (s : String) : Option PNode :=
+  match s.splitOn ":" with
+  | [a, b] => match parseIds parsePId a, parseIds parseEId b with
+    | some x, some y => some ⟨x, y⟩
+    | _, _ => none
+  | _ => none
+
+def parsePEdge (s : String) : Option PEdge :=
+  match s.splitOn ">" with
+  | [a, b] => match parsePId a, parsePId b with
+    | some x, some y => some ⟨x, y⟩
+    | _, _ => none
+  | _ => none
+
+def parseSnap (s : String) : Option PHeap :=
+  match s.splitOn "/" with
+  | [n1, n2, a, b, c, d, e0, ea, eb, ec, ed] =>
+    match [n1, n2, a, b, c, d].mapM parsePNode, [e0, ea, eb, ec, ed].mapM parsePEdge with
+    | some [N1, N2, A, B, C, D], some [E0, EA, EB, EC, ED] =>
+      some { node := fun x => match x with | .n1 => N1 | .n2 => N2 | .a => A | .b => B | .c => C | .d => D
+             edge := fun e => match e with
+               | .e0 => E0 | .eo .a => EA | .eo .b => EB | .eo .c => EC | .eo .d => ED
+               | _ => ⟨.ext 0, .ext 0⟩ }
+    | _, _ => none
+  | _ => none
+
+def localEdges : List EId := [.e0, .eo .a, .eo .b, .eo .c, .eo .d]
+
+/-- the same records (decidable form of `PHeap.same` on the piece) -/
+def sameP (h h' : PHeap) : Bool :=
+  allRefs.all (fun x => (h.node x).neigh == (h'.node x).neigh && (h.node x).br == (h'.node x).br) &&
+  localEdges.all (fun e => (h.edge e).left == (h'.edge e).left && (h.edge e).right == (h'.edge e).right)
+
+def subAtD : List Nat → T → Option T
+  | [], t => some t
+  | i :: p, .node _ _ k => match k[i]? with
+    | none => none
+    | some (_, c) => subAtD p c
+
+def triOf : List PId → Option (Tri Ref)
+  | [.n x, .n y, .n z] => some (x, y, z)
+  | _ => none
+
+/-- what the six-node `Heap` of `Model/C17.lean` and a pointer piece can be compared on -/
+def heapKeyP (p : PHeap) : Option (Tri Ref × Tri Ref × Bool × List Bool) :=
+  match triOf (p.node .n1).neigh, triOf (p.node .n2).neigh with
+  | some g1, some g2 =>
+    some (g1, g2, (p.edge .e0).left == .n .n1,
+      [Ref.a, Ref.b, Ref.c, Ref.d].map fun o => (p.edge (.eo o)).left == .n o)
+  | _, _ => none
+
+def heapKeyH (H : Heap) : Tri Ref × Tri Ref × Bool × List Bool :=
+  (H.ng1, H.ng2, H.left1, [H.oa.isUp, H.ob.isUp, H.oc.isUp, H.od.isUp])
+
+def parsePath (s : String) : Option (List Nat) :=
+  if s == "" then some [] else (s.splitOn ".").mapM (·.toNat?)
+
+def handleHeap (variant : String) (t : T) (runOut : String) (recs : List String) : Verdict :=
+  let rs := rearrangements t
+  let rr := variant == "rr"
+  let tags := ["heap", "heap-" ++ variant] ++ tagIf t.rooted "rooted" ++ tagIf (!t.rooted) "unrooted" ++ tagIf (recs.length ≥ 4) "nontrivial"
+  if runOut != "ok" then ⟨.oracle, tags, "Rearrange: " ++ runOut⟩ else
+  let one (s : String) (i : Nat) : Option (Status × String) :=
+    let at_ := " at rearrangement " ++ toString i
+    match s.splitOn ";" with
+    | [outs, crossS, pathS, s0, s1, s1b, s2] =>
+      if outs == "noview" then some (.bad, "harness cannot read the nni: " ++ crossS) else
+      match parseSnap s0, parseSnap s1, parseSnap s1b, parseSnap s2, parsePath pathS with
+      | some p0, some p1, some p1b, some p2, some path =>
+        let cross := crossS == "true"
+        -- on the implementation's own heap: the piece is well formed before, after Apply and after
+        -- Undo; every node keeps its number of parent branches; Undo restores every record
+        if outs != "ok+ok+ok+ok" then some (.oracle, "Apply/Undo/re-rooting/well-formedness after Undo: " ++ outs ++ at_)
+        else if !(pairing p0 && symmetric p0) then some (.bad, "harness: piece not well formed before Apply" ++ at_)
+        else if !(pairing p1) then some (.oracle, "after Apply: neigh and br do not pair up" ++ at_)
+        else if !(symmetric p1) then some (.oracle, "after Apply: adjacency not symmetric" ++ at_)
+        else if !(allRefs.all fun x => incoming p1 x == incoming p0 x) then
+          some (.oracle, "after Apply: a node changed its number of parent branches (orientation)" ++ at_)
+        else if !(pairing p2 && symmetric p2) then some (.oracle, "after Undo: piece not well formed" ++ at_)
+        else if !(pairing p1b && symmetric p1b) then some (.bad, "harness: piece not well formed after re-rooting" ++ at_)
+        else if !(allRefs.all fun x => incoming p2 x == incoming p1b x) then
+          some (.oracle, "after Undo: a node changed its number of parent branches (orientation)" ++ at_)
+        -- Undo restores every record (the neighbour slices also when the tree was re-rooted in between:
+        -- re-rooting only turns branches round)
+        else if !rr && s2 != s0 then some (.oracle, "Undo does not restore the records of the piece" ++ at_)
+        else if rr && !(allRefs.all fun x => (p2.node x).neigh == (p0.node x).neigh && (p2.node x).br == (p0.node x).br) then
+          some (.oracle, "Undo does not restore the neighbour slices of the piece" ++ at_)
+        else
+        -- tie: the Go statements as transcribed in `applyP` / `undoP`
+        match applyP p0 cross with
+        | none => some (.tie, "model applyP fails" ++ at_)
+        | some q =>
+          if !(sameP q p1) then some (.tie, "model applyP gives other records" ++ at_) else
+          match undoP p1b cross with
+          | none => some (.tie, "model undoP fails" ++ at_)
+          | some q' =>
+            if !(sameP q' p2) then some (.tie, "model undoP gives other records" ++ at_) else
+            if rr then none else
+            -- tie: the abstraction (left edge of the square): the heap `apply` reads off the dump
+            let i1 := (nodeIndex (p0.node .n1).neigh (.n .n2)).getD 99
+            match rs.find? (fun r => r.path == path && r.cross == cross && r.i1 == i1), subAtD path t with
+            | some r, some S =>
+              match extract S path.isEmpty r false with
+              | none => some (.tie, "model extract fails" ++ at_)
+              | some H =>
+                if heapKeyP p0 != some (heapKeyH H) then some (.tie, "abstraction of the piece differs from what the model reads off the tree" ++ at_)
+                else match applyH H cross with
+                  | none => some (.tie, "model applyH fails" ++ at_)
+                  | some H' =>
+                    if heapKeyP p1 != some (heapKeyH H') then some (.tie, "abstraction after Apply differs from applyH" ++ at_) else none
+            | _, _ => some (.tie, "no model rearrangement at this place" ++ at_)
+      | _, _, _, _, _ => some (.bad, "unreadable snapshot" ++ at_)
+    | _ => some (.bad, "heap record fields")
+  let results := (recs.zip (List.range recs.length)).filterMap fun (s, i) => one s i
+  -- an oracle failure goes first
+  match results.find? (fun r => r.1 == .oracle), results.head? with
+  | some r, _ => ⟨.oracle, tags, r.2⟩
+  | none, some r => ⟨r.1, tags, r.2⟩
+  | none, none =>
+    if recs.length != rs.length then ⟨.tie, tags, "model proposes " ++ toString rs.length ++ " rearrangements"⟩
+    else ⟨.pass, tags, ""⟩
+
 def handle (op : String) (f : List String) : Verdict :=
   match op, f with
   | "enum", [ms, before, text, recs, calls, wfF, dumpF, textF] =>
@@ -260,6 +443,10 @@ def handle (op : String) (f : List String) : Verdict :=
     match T.undump before, rl with
     | some t, some rl => handleCLI t out rl
     | _, _ => bad "C17.cli fields"
+  | "heap", [variant, _seed, before, runOut, recs] =>
+    match T.undump before with
+    | some t => handleHeap variant t runOut (splitTerm "|" recs)
+    | none => bad "C17.heap fields"
   | "glue", [variant, _req, before, out, crashed, recs, _stderr] =>
     let rl : Option (List (String × String)) := (splitTerm "|" recs).mapM fun s =>
       match s.splitOn ";" with
